@@ -15,8 +15,6 @@ import (
 	"fmt"
 	"math/big"
 	"os"
-	"runtime/pprof"
-	"time"
 	"sort"
 	"strings"
 	"sync"
@@ -30,8 +28,8 @@ import (
 )
 
 type node struct {
-	blocks  [][]int // committed blocks (event indexes)
-	pending []int   // open block
+	blocks  [][]int      // committed blocks (event indexes)
+	pending []int        // open block
 	mS, mR  *reg.Model   // model after the committed blocks / after the open block as well
 	sS, sR  reg.Snapshot // complete database content at the same two points
 	keyS    string
@@ -69,11 +67,11 @@ type finding struct {
 var reopenEvery = 200
 
 type worker struct {
-	fx   *reg.Fixture
-	cfg  reg.Config
-	db   *kv.BadgerDB
-	cur  reg.Snapshot // current content of db
-	uses int
+	fx    *reg.Fixture
+	cfg   reg.Config
+	db    *kv.BadgerDB
+	cur   reg.Snapshot // current content of db
+	uses  int
 	views *sync.Map // real states that passed the full oracle -> their description
 }
 
@@ -332,7 +330,7 @@ func (s *search) parallel(n int, f func(w *worker, i int)) bool {
 	return ok
 }
 
-func (s *search) run() (states, nodes, transitions int, complete bool) {
+func (s *search) run() (states, nodes, transitions, doneDepth int, complete bool) {
 	fx := s.fx
 	nEvents := len(fx.Events)
 	// root: the prefix (if any) as one committed block
@@ -405,7 +403,7 @@ func (s *search) run() (states, nodes, transitions int, complete bool) {
 				transitions += len(l)
 			}
 			s.r.CapHit(fmt.Sprintf("deadline at depth %d (own key K%d, prefix %d)", d, s.cfg.OwnKey, len(s.prefix)))
-			return len(distinct), len(seen), transitions, false
+			return len(distinct), len(seen), transitions, d, false
 		}
 		// phase 3 (sequential, deterministic order): merge
 		for i, p := range reps {
@@ -440,23 +438,11 @@ func (s *search) run() (states, nodes, transitions int, complete bool) {
 		}
 		frontier = next
 	}
-	return len(distinct), len(seen), transitions, true
+	return len(distinct), len(seen), transitions, s.depth, true
 }
 
 func main() {
 	r := ev.Start("C11", "model_checking")
-	if pf := os.Getenv("C11_CPUPROFILE"); pf != "" {
-		f, _ := os.Create(pf)
-		pprof.StartCPUProfile(f)
-		go func() {
-			time.Sleep(40 * time.Second)
-			pprof.StopCPUProfile()
-			f.Close()
-			h, _ := os.Create(pf + ".heap")
-			pprof.Lookup("allocs").WriteTo(h, 0)
-			h.Close()
-		}()
-	}
 	fx := reg.NewFixture()
 	if r.Replay != "" {
 		replay(r, fx)
@@ -476,11 +462,12 @@ func main() {
 		prefix []int
 		depth  int
 	}
-	// measured (transitions executed on the real handler): member/prefix depth 3: 4.0k, 5: 82.7k;
-	// empty depth 3: 8.1k, 4: 49.9k; not-a-member depth 2: 0.4k, 4: 11.5k (one more level is x4..x6)
+	// measured (transitions executed on the real handler): member/prefix depth 3: 4.0k, 5: 82.7k, 6: 261k;
+	// empty depth 3: 8.1k, 4: 49.9k, 5: 211k; not-a-member depth 3: 2.8k, 4: 11.5k, 5: 34.7k
+	// (~200 transitions/s/core on a busy box, ~3200/s on 16 quiet cores)
 	cfgs := []cfg{{1, opsPrefix, 4}, {1, nil, 3}, {5, opsPrefix5, 3}}
 	if r.Thorough() {
-		cfgs = []cfg{{1, opsPrefix, 6}, {1, nil, 5}, {5, opsPrefix5, 5}}
+		cfgs = []cfg{{1, opsPrefix, 7}, {1, nil, 6}, {5, opsPrefix5, 6}}
 	}
 	if v := os.Getenv("C11_DEPTH"); v != "" {
 		var d int
@@ -498,7 +485,7 @@ func main() {
 		for i := 0; i < nWorkers; i++ {
 			s.workers = append(s.workers, &worker{fx: fx, cfg: s.cfg, db: reg.NewDB(), views: views})
 		}
-		st, nodes, tr, ok := s.run()
+		st, nodes, tr, done, ok := s.run()
 		for _, w := range s.workers {
 			w.db.Close()
 		}
@@ -507,8 +494,8 @@ func main() {
 		r.Add("transitions", tr)
 		r.Add("batching_pairs_compared", s.pairs)
 		exhaustive = exhaustive && ok
-		bounds = append(bounds, fmt.Sprintf("own=K%d prefix=[%s] depth=%d alphabet=%d: states=%d nodes(state,open block)=%d transitions=%d complete=%v",
-			c.own, evNames(fx, c.prefix), c.depth, len(fx.Events), st, nodes, tr, ok))
+		bounds = append(bounds, fmt.Sprintf("own=K%d prefix=[%s] depth=%d (completed: %d) alphabet=%d: states=%d nodes(state,open block)=%d transitions=%d complete=%v",
+			c.own, evNames(fx, c.prefix), c.depth, done, len(fx.Events), st, nodes, tr, ok))
 	}
 	r.Set("traces_validated_against_impl", r.Get("transitions"))
 	r.Set("bounds", bounds)
